@@ -2,6 +2,7 @@ import Xp.Model.C11
 import Xp.Model.C11Hook
 import Xp.Proofs.C11
 import Xp.Proofs.C11Hook
+import Xp.Gen.C11Skel
 /-
 C11 property theorems: the CRDs derived from an XRD are the author's schema plus
 intact Crossplane machinery; colliding claim names are rejected; group and
@@ -80,6 +81,68 @@ theorem base_schema :
 
 /-- names are used as label values: the limit written into both CRDs is 63 -/
 theorem name_limit : maxNameLengthOf .xr = 63 ∧ maxNameLengthOf .claim = 63 := by decide
+
+/-- the keywords an author's schema relies on are keywords of the type the derivation decodes the
+document into (extv1.JSONSchemaProps of the module version the current tree pins, by reflection):
+none of them is dropped by the decode before genCrdVersion runs, `properties` is a map of schemas,
+`items` a schema or a list of schemas, the CEL rules a list of rule objects. (A keyword outside
+this table never reaches the derivation: JSON decoding is library code.) -/
+theorem schema_keywords_known :
+    (∀ k ∈ ["type", "description", "properties", "required", "default", "enum", "format", "pattern", "nullable",
+            "items", "additionalProperties", "minimum", "maximum", "multipleOf", "minLength", "maxLength",
+            "minItems", "maxItems", "uniqueItems", "minProperties", "maxProperties", "oneOf", "anyOf", "allOf", "not",
+            "x-kubernetes-validations", "x-kubernetes-preserve-unknown-fields", "x-kubernetes-int-or-string",
+            "x-kubernetes-embedded-resource", "x-kubernetes-list-type", "x-kubernetes-list-map-keys",
+            "x-kubernetes-map-type"], k ∈ keys xcrdSchemaKeywords) ∧
+    (keys xcrdSchemaKeywords).Nodup ∧
+    lookup "properties" xcrdSchemaKeywords = some "schemaMap" ∧
+    lookup "items" xcrdSchemaKeywords = some "schemaOrSchemas" ∧
+    lookup "additionalProperties" xcrdSchemaKeywords = some "schemaOrBool" ∧
+    lookup "oneOf" xcrdSchemaKeywords = some "schemas" ∧
+    lookup "x-kubernetes-validations" xcrdSchemaKeywords = some "rules" := by decide
+
+/-! ## obligations on the regenerated statement / call skeletons
+
+Every Go function the model mirrors is read with go/ast from the current tree on every run
+(harness/main/c11_skel.go -> Xp.Gen.c11Stmts…): its leaf statements and control headers in source
+order. The model files declare the statements their definitions mirror (one entry per statement,
+with the model step); these obligations say the two lists are equal, so that a field copy dropped,
+two writes swapped, a comparison changed or a call inserted in a mirrored function fails here before
+any scenario is run. -/
+
+theorem skeleton_ForCompositeResource : c11StmtsForCompositeResource = skelForCompositeResource := rfl
+theorem skeleton_ForCompositeResourceClaim : c11StmtsForCompositeResourceClaim = skelForCompositeResourceClaim := rfl
+theorem skeleton_genCrdVersion : c11StmtsGenCrdVersion = skelGenCrdVersion := rfl
+theorem skeleton_validateClaimNames : c11StmtsValidateClaimNames = skelValidateClaimNames := rfl
+theorem skeleton_parseSchema : c11StmtsParseSchema = skelParseSchema := rfl
+theorem skeleton_setCrdMetadata : c11StmtsSetCrdMetadata = skelSetCrdMetadata := rfl
+theorem skeleton_IsEstablished : c11StmtsIsEstablished = skelIsEstablished ∧
+    c11EstablishedType = "Established" ∧ c11ConditionTrue = "True" := ⟨rfl, rfl, rfl⟩
+theorem skeleton_Validate : c11StmtsValidate = skelValidate ∧ c11StmtsValidateConversion = skelValidateConversion := ⟨rfl, rfl⟩
+theorem skeleton_ValidateUpdate : c11StmtsValidateUpdate = skelValidateUpdate := rfl
+theorem skeleton_getAllCRDsForXRD : c11StmtsGetAllCRDsForXRD = skelGetAllCRDsForXRD := rfl
+theorem skeleton_hook_ValidateCreate : c11StmtsHookValidateCreate = skelHookValidateCreate := rfl
+theorem skeleton_hook_ValidateUpdate : c11StmtsHookValidateUpdate = skelHookValidateUpdate := rfl
+theorem skeleton_hook_dryRunUpdateOrCreateIfNotFound : c11StmtsHookDryRun = skelHookDryRun := rfl
+theorem skeleton_hook_rewriteError : c11StmtsHookRewriteError = skelHookRewriteError := rfl
+
+/-- the verbs go/ast finds on the validator's client are the requests of the model's Prog trees
+(a function of the model, for every CRD): Get, then a dry-run Update or a dry-run Create inside the
+retried closure; one dry-run Create per CRD in ValidateCreate; nothing else, and ValidateUpdate itself
+calls the client only through dryRunUpdateOrCreateIfNotFound -/
+theorem skeleton_hook_client_calls (crd : Crd) :
+    c11CallsHookDryRun = callsHookDryRun crd ∧ c11CallsHookValidateCreate = callsHookValidateCreate crd ∧
+    c11CallsHookValidateUpdate = [] := ⟨rfl, rfl, rfl⟩
+
+/-- the reconcilers that write the CRDs: Render (built with xcrd.ForCompositeResource /
+ForCompositeResourceClaim themselves, not a wrapper) comes before the one Apply, and the only other
+function of package xcrd Reconcile uses is the establishment gate IsEstablished (no option that
+filters or skips the Apply) -/
+theorem skeleton_reconcilers :
+    c11SkelDefinitionReconcile = skelDefinitionReconcile ∧ c11SkelOfferedReconcile = skelOfferedReconcile ∧
+    c11RendererDefinition = rendererOf .xr ∧ c11RendererOffered = rendererOf .claim ∧
+    c11XcrdInDefinitionReconcile = ["IsEstablished"] ∧ c11XcrdInOfferedReconcile = ["IsEstablished"] :=
+  ⟨rfl, rfl, rfl, rfl, rfl, rfl⟩
 
 /-! ## machinery intact -/
 
@@ -200,6 +263,45 @@ theorem author_rules_kept (w : Which) (xrd : Xrd) (crd : Crd) (h : derive w xrd 
   rw [decorate_spec, decorate_status]
   simp only [genSpec, genStatus, hb.2.2.2.2.2.2.1, hb.2.2.2.2.2.2.2.1, hb.2.2.2.2.2.2.2.2.1, List.nil_append, true_and]
   simp [decorate, mkVersion, writeSpecProps, genSchema]
+
+/-- ... and EXACTLY that much of the author's document is read: both derivations give the same
+result (CRD or error) for an XRD and for the XRD whose schemas are cut down to the top-level
+description, the spec node's required / preserve-unknown-fields / rules / oneOf / description /
+properties, the status node's required / rules / oneOf / description / properties and
+metadata.name.maxLength. Every other keyword at those three levels (type, default, enum, anyOf,
+allOf, not, additionalProperties, nullable, min/maxProperties, status preserve-unknown-fields,
+further top-level properties, top-level rules) is dropped by the derivation; keywords INSIDE a
+property of spec / status are carried whole (`author_kept`). -/
+theorem author_read_exactly (w : Which) (xrd : Xrd) :
+    derive w { xrd with versions := xrd.versions.map Version.read } = derive w xrd := by
+  cases w with
+  | xr => simp only [derive, forXR, genVersions_read]; rfl
+  | claim => simp only [derive, forClaim, genVersions_read]; rfl
+
+/-- labels and annotations: the CRD carries the XRD's own labels overlaid with spec.metadata.labels
+(on a shared key spec.metadata wins), and exactly spec.metadata.annotations (the XRD's own
+annotations are not propagated) - the same on both CRDs -/
+theorem labels_propagated (w : Which) (xrd : Xrd) (crd : Crd) (h : derive w xrd = .ok crd) :
+    crd.annotations = xrd.metaAnnotations ∧
+    ((keys xrd.metaLabels).Nodup →
+      (∀ k, k ∈ keys xrd.metaLabels → lookup k crd.labels = lookup k xrd.metaLabels) ∧
+      (∀ k, k ∉ keys xrd.metaLabels → lookup k crd.labels = lookup k xrd.labels)) := by
+  have hl : crd.labels = crdLabels xrd ∧ crd.annotations = xrd.metaAnnotations := by
+    cases w with
+    | xr => obtain ⟨vs, _, rfl⟩ := forXR_ok xrd crd h; exact ⟨rfl, rfl⟩
+    | claim => obtain ⟨c, vs, _, _, rfl⟩ := forClaim_ok xrd crd h; exact ⟨rfl, rfl⟩
+  refine ⟨hl.2, fun hnd => ⟨fun k hk => ?_, fun k hk => ?_⟩⟩
+  · rw [hl.1]; exact lookup_setAll_of_mem k _ _ hnd hk
+  · rw [hl.1]; exact lookup_setAll_of_not_mem k _ _ hnd hk
+
+/-- the machinery printer columns of the current tree: Synced / Ready first, then the composition
+(composite) or the connection secret (claim), and the age (obligation on the regenerated tables;
+`versions_all` says every version carries the author's columns followed by exactly these) -/
+theorem printer_columns_shape :
+    xcrdPrinterColumnNamesXR = ["SYNCED", "READY", "COMPOSITION", "COMPOSITIONREVISION", "AGE"] ∧
+    xcrdPrinterColumnNamesClaim = ["SYNCED", "READY", "CONNECTION-SECRET", "AGE"] ∧
+    xcrdPrinterColumnsXR.length = 5 ∧ xcrdPrinterColumnsClaim.length = 4 ∧
+    categoryComposite = "composite" ∧ categoryClaim = "claim" := by decide
 
 /-! ## versions, storage, subresource, scope, owner, names -/
 
@@ -476,6 +578,18 @@ theorem webhook_never_persists (new old : Xrd) (accept : Crd → Bool) (env : En
   · have hwp := wp_hook accept (validate new) new dryRunAllCreate (fun crds s => wp_dryRunAllCreate accept crds s) w
     exact (wpE_sound (hookSem accept) anyEnv harmlessG env (fun _ _ => trivial) plan k _ _ w hwp).1
 
+/-- EVERY request the webhook issues while it handles a request - under any environment, fault
+plan and initial world, whatever the replies - is about a CRD derived from the XRD UNDER REVIEW:
+a read of that CRD's name, or a dry-run Update / Create that carries exactly the derived CRD
+(never an object derived from another XRD, an earlier request or the old state of the XRD; never
+a persisting write). With `webhook_update_sound` / `webhook_create_sound`: what the API server
+accepted is what the reviewed XRD derives to. -/
+theorem webhook_submits_derived (new old : Xrd) (accept : Crd → Bool) (env : Env World) (plan : Plan) (k : Nat) (w : World) :
+    (∀ x ∈ ownE (hookSem accept) env plan k (hookUpdate new old) w, AboutDerived new x.2) ∧
+    (∀ x ∈ ownE (hookSem accept) env plan k (hookCreate new) w, AboutDerived new x.2) :=
+  ⟨ownE_all _ _ _ _ (all_hook _ new _ (fun crds => all_dryRunAllUpdate _ crds crds (fun _ h => h))) _ _,
+   ownE_all _ _ _ _ (all_hook _ new _ (fun crds => all_dryRunAllCreate crds crds (fun _ h => h))) _ _⟩
+
 /-- colliding claim names are never admitted, by create or by update, under any interleaving -/
 theorem claim_collision_never_admitted (xrd old : Xrd) (c : Names) (hc : xrd.claimNames = some c)
     (hcol : claimNamesCollide c xrd.names) (accept : Crd → Bool) (env : Env World) (plan : Plan) (k : Nat) (w : World) :
@@ -552,6 +666,59 @@ theorem reconcile_stores_derived (w : Which) (xrd : Xrd) (stored : Option Crd) (
     | none => simpa using h
     | some s => simpa [serverUpdate] using h
 
+/-- xcrd.IsEstablished answers true exactly when the FIRST condition of type Established has status
+True (later conditions of that type, and conditions of other types, are not looked at) -/
+theorem established_iff (conds : List (String × String)) :
+    isEstablished conds = true ↔
+      ∃ pre rest, conds = pre ++ ("Established", "True") :: rest ∧ ∀ c ∈ pre, c.1 ≠ "Established" := by
+  induction conds with
+  | nil =>
+    constructor
+    · intro h; cases h
+    · rintro ⟨pre, rest, h, _⟩; cases pre <;> cases h
+  | cons x xs ih =>
+    obtain ⟨t, s⟩ := x
+    unfold isEstablished
+    by_cases ht : t = "Established"
+    · subst ht
+      simp only [if_true]
+      constructor
+      · intro h
+        have hs : s = "True" := by simpa using h
+        subst hs
+        exact ⟨[], xs, rfl, by intro c hc; cases hc⟩
+      · rintro ⟨pre, rest, h, hpre⟩
+        cases pre with
+        | nil => simp only [List.nil_append, List.cons.injEq, Prod.mk.injEq] at h; simp [h.1.2]
+        | cons p ps =>
+          simp only [List.cons_append, List.cons.injEq] at h
+          exact absurd (by rw [← h.1]) (hpre p (List.mem_cons_self ..))
+    · simp only [ht, if_false]
+      rw [ih]
+      constructor
+      · rintro ⟨pre, rest, h, hpre⟩
+        refine ⟨(t, s) :: pre, rest, by rw [h]; rfl, ?_⟩
+        intro c hc
+        cases List.mem_cons.mp hc with
+        | inl e => subst e; exact ht
+        | inr e => exact hpre c e
+      · rintro ⟨pre, rest, h, hpre⟩
+        cases pre with
+        | nil =>
+          simp only [List.nil_append, List.cons.injEq, Prod.mk.injEq] at h
+          exact absurd h.1.1 ht
+        | cons p ps =>
+          simp only [List.cons_append, List.cons.injEq] at h
+          exact ⟨ps, rest, h.2, fun c hc => hpre c (List.mem_cons_of_mem _ hc)⟩
+
+/-- the definition / offered reconciler finishes (and starts the controller for the kind) only when the
+CRD it applied is established; until then it asks to be called again -/
+theorem reconcile_waits_for_establishment (conds : List (String × String)) :
+    (reconcileResult conds = "ok" ↔ isEstablished conds = true) ∧
+    (reconcileResult conds = "requeue" ↔ isEstablished conds = false) := by
+  unfold reconcileResult
+  cases isEstablished conds <;> decide
+
 /-! ## the hypotheses are satisfiable (non-vacuity) -/
 
 /-! `exXrd` (Model/C11): two versions; the first one's schema declares `spec.claimRef` and
@@ -578,6 +745,20 @@ example : ∃ n, derive .claim { exXrd with claimNames := some { kind := "Databa
 example : validateUpdate { exXrd with claimNames := none } exXrd = [] := by decide
 example : validateUpdate { exXrd with names := { exXrd.names with kind := "XDb" } } exXrd = ["spec.names.kind"] := by decide
 
+/-- `exXrd` cut down to what is read is another XRD (its first schema declares `type`s the
+derivation never looks at) and derives to the same CRDs; labels: spec.metadata wins -/
+example : (exXrd.versions.map Version.read).map (fun v => match v.schema with | .ok s => s.type | _ => "") ≠
+          exXrd.versions.map (fun v => match v.schema with | .ok s => s.type | _ => "") := by decide
+
+example : ∃ c, derive .claim { exXrd with labels := [("a", "1"), ("b", "2")], metaLabels := [("b", "3")], metaAnnotations := [("n", "v")] } = .ok c ∧
+    c.labels = [("a", "1"), ("b", "3")] ∧ c.annotations = [("n", "v")] := ⟨_, rfl, by decide, by decide⟩
+
+/-- conditions as the API server writes them while names are being accepted, then established; and a
+stale `Established False` in front of a later `True` still counts as not established -/
+example : isEstablished [("NamesAccepted", "True"), ("Established", "True")] = true ∧
+    isEstablished [("Established", "False"), ("Established", "True")] = false ∧
+    reconcileResult [] = "requeue" := by decide
+
 /-! the webhook under interference (`exXrd` updated to itself; both CRDs exist and are cached) -/
 
 def exWorld : World := World.initial ["xdatabases.example.org", "databases.example.org"]
@@ -602,6 +783,10 @@ dry-run Create: AlreadyExists, refused (the other party's CRD was never validate
 example : (runE (hookSem fun _ => true) (scriptEnv [(3, .create "databases.example.org")])
     Plan.allOk 0 (hookUpdate exXrd exXrd) (World.initial ["xdatabases.example.org"])).2
       = some (.rejected "claim" .alreadyExists) := by decide
+
+/-- the requests of that run: four, each about one of the two CRDs derived from `exXrd` -/
+example : (ownE (hookSem fun _ => true) Env.none Plan.allOk 0 (hookUpdate exXrd exXrd) exWorld).map (·.2.name)
+    = ["xdatabases.example.org", "xdatabases.example.org", "databases.example.org", "databases.example.org"] := by decide
 
 /-- the server refuses the claim CRD: refused, whatever else happens -/
 example : (runE (hookSem fun c => c.scope != "Namespaced") Env.none Plan.allOk 0 (hookUpdate exXrd exXrd) exWorld).2
